@@ -194,6 +194,54 @@ func VH_omap_Filled() {
 	vProbeMap(m, r, "filled")
 }
 
+// VH_omap_Drain: grow to n keys (ascending symbolic keys, so no forks), then delete
+// them one at a time in a chosen pattern: reaches the delete-side rebuilds of the
+// underlying tree that small maps never trigger.
+func VH_omap_Drain() {
+	n := vCase("n")
+	m := vNewMap(false)
+	r := &vRefMap{}
+	keys := make([]int, n)
+	for i := range keys {
+		keys[i] = vOrd("k")
+		if i > 0 {
+			vAssume(keys[i-1] < keys[i])
+		}
+		m.Set(keys[i], i)
+		r.es = append(r.es, vKV{keys[i], i})
+	}
+	vCheckMap(m, r, "grown")
+	order := vCase("order")
+	for step := 0; step < n; step++ {
+		var k int
+		switch order {
+		case 0:
+			k = keys[step] // ascending
+		case 1:
+			k = keys[n-1-step] // descending
+		default:
+			k = keys[(step*7+3)%n] // scattered (n coprime to 7)
+		}
+		i := -1
+		for j, e := range r.es {
+			if e.k == k {
+				i = j
+			}
+		}
+		if i < 0 {
+			continue
+		}
+		r.es = append(append([]vKV{}, r.es[:i]...), r.es[i+1:]...)
+		vAssert(m.Delete(k), "Delete of a present key during a drain")
+		vAssert(m.Len() == len(r.es), "Len during a drain")
+		if step%4 == 3 || len(r.es) <= 2 {
+			vCheckMap(m, r, "during drain")
+		}
+	}
+	vCover("drained")
+	vCheckMap(m, r, "drained")
+}
+
 func VH_omap_Zero() {
 	var z Map[int, int]
 	vAssert(z.Len() == 0, "zero Map: Len 0")
